@@ -1,0 +1,344 @@
+//! Verification seam, compiled only with `--cfg ts_rs_verif`.
+//!
+//! Puts every source of nondeterminism the export runtime touches (file system, environment,
+//! working directory, the registry lock, the order in which the derive visits dependencies)
+//! behind one [`Backend`] trait. With no backend installed every call forwards to `std`, so
+//! behaviour is unchanged.
+
+use std::{
+    collections::{BTreeMap, BTreeSet},
+    io,
+    ops::{Deref, DerefMut},
+    path::{Path, PathBuf},
+    sync::{Arc, LockResult, Mutex, MutexGuard, PoisonError, RwLock},
+};
+
+/// How a file is opened through the seam.
+#[derive(Clone, Copy, Debug, Default, PartialEq, Eq)]
+pub struct OpenFlags {
+    pub read: bool,
+    pub write: bool,
+    pub create: bool,
+    pub truncate: bool,
+}
+
+/// Everything the export runtime asks of the outside world.
+pub trait Backend: Send + Sync {
+    fn env_var(&self, key: &str) -> Option<String>;
+    fn current_dir(&self) -> io::Result<PathBuf>;
+    fn mkdir(&self, path: &Path) -> io::Result<()>;
+    fn is_dir(&self, path: &Path) -> bool;
+    fn open(&self, path: &Path, flags: OpenFlags) -> io::Result<u64>;
+    fn fstat_len(&self, fd: u64) -> io::Result<u64>;
+    fn read(&self, fd: u64, buf: &mut [u8]) -> io::Result<usize>;
+    fn write(&self, fd: u64, buf: &[u8]) -> io::Result<usize>;
+    fn seek(&self, fd: u64, pos: io::SeekFrom) -> io::Result<u64>;
+    fn fsync(&self, fd: u64) -> io::Result<()>;
+    fn close(&self, fd: u64);
+    /// Called before the real `Mutex::lock`; returns once the caller may take the lock.
+    fn lock_acquire(&self, label: &'static str);
+    /// Called after the real guard has been dropped.
+    fn lock_release(&self, label: &'static str);
+    /// Order in which the `n` dependency entries of `type_name` are visited.
+    fn visit_order(&self, type_name: &str, n: usize) -> Vec<usize>;
+}
+
+static BACKEND: RwLock<Option<Arc<dyn Backend>>> = RwLock::new(None);
+
+/// Installs (or, with `None`, removes) the process-wide backend.
+pub fn install(backend: Option<Arc<dyn Backend>>) {
+    *BACKEND.write().unwrap_or_else(PoisonError::into_inner) = backend;
+}
+
+fn backend() -> Option<Arc<dyn Backend>> {
+    BACKEND
+        .read()
+        .unwrap_or_else(PoisonError::into_inner)
+        .clone()
+}
+
+/// Forget everything exported so far, as a fresh process would.
+pub fn reset_registry() {
+    crate::export::verif_reset_registry()
+}
+
+/// What the registry currently records: file -> names written to it.
+pub fn registry_snapshot() -> Option<BTreeMap<PathBuf, BTreeSet<String>>> {
+    crate::export::verif_registry_snapshot()
+}
+
+/// Used by the derive (under the guard) to decide the order of `visit_dependencies`.
+pub fn visit_order(type_name: &str, n: usize) -> Vec<usize> {
+    match backend() {
+        Some(b) => {
+            let order = b.visit_order(type_name, n);
+            debug_assert!({
+                let mut s = order.clone();
+                s.sort_unstable();
+                s == (0..n).collect::<Vec<_>>()
+            });
+            order
+        }
+        None => (0..n).collect(),
+    }
+}
+
+enum Inner {
+    Real(std::fs::File),
+    Sim(Arc<dyn Backend>, u64),
+}
+
+/// Look-alike of `std::fs::File` for the calls the export runtime makes.
+pub struct File(Inner);
+
+impl File {
+    pub fn create<P: AsRef<Path>>(path: P) -> io::Result<File> {
+        OpenOptions::new()
+            .write(true)
+            .create(true)
+            .truncate(true)
+            .open(path)
+    }
+
+    pub fn metadata(&self) -> io::Result<Metadata> {
+        match &self.0 {
+            Inner::Real(f) => Ok(Metadata(f.metadata()?.len())),
+            Inner::Sim(b, fd) => Ok(Metadata(b.fstat_len(*fd)?)),
+        }
+    }
+
+    pub fn sync_all(&self) -> io::Result<()> {
+        match &self.0 {
+            Inner::Real(f) => f.sync_all(),
+            Inner::Sim(b, fd) => b.fsync(*fd),
+        }
+    }
+}
+
+impl Drop for File {
+    fn drop(&mut self) {
+        if let Inner::Sim(b, fd) = &self.0 {
+            b.close(*fd)
+        }
+    }
+}
+
+impl io::Read for File {
+    fn read(&mut self, buf: &mut [u8]) -> io::Result<usize> {
+        match &mut self.0 {
+            Inner::Real(f) => f.read(buf),
+            Inner::Sim(b, fd) => b.read(*fd, buf),
+        }
+    }
+}
+
+impl io::Write for File {
+    fn write(&mut self, buf: &[u8]) -> io::Result<usize> {
+        match &mut self.0 {
+            Inner::Real(f) => f.write(buf),
+            Inner::Sim(b, fd) => b.write(*fd, buf),
+        }
+    }
+
+    fn flush(&mut self) -> io::Result<()> {
+        match &mut self.0 {
+            Inner::Real(f) => f.flush(),
+            Inner::Sim(..) => Ok(()),
+        }
+    }
+}
+
+impl io::Seek for File {
+    fn seek(&mut self, pos: io::SeekFrom) -> io::Result<u64> {
+        match &mut self.0 {
+            Inner::Real(f) => f.seek(pos),
+            Inner::Sim(b, fd) => b.seek(*fd, pos),
+        }
+    }
+}
+
+pub struct Metadata(u64);
+
+impl Metadata {
+    #[allow(clippy::len_without_is_empty)]
+    pub fn len(&self) -> u64 {
+        self.0
+    }
+}
+
+/// Look-alike of `std::fs::OpenOptions`.
+#[derive(Clone, Debug, Default)]
+pub struct OpenOptions(OpenFlags);
+
+impl OpenOptions {
+    #[allow(clippy::new_without_default)]
+    pub fn new() -> Self {
+        Self::default()
+    }
+
+    pub fn read(&mut self, v: bool) -> &mut Self {
+        self.0.read = v;
+        self
+    }
+
+    pub fn write(&mut self, v: bool) -> &mut Self {
+        self.0.write = v;
+        self
+    }
+
+    pub fn create(&mut self, v: bool) -> &mut Self {
+        self.0.create = v;
+        self
+    }
+
+    pub fn truncate(&mut self, v: bool) -> &mut Self {
+        self.0.truncate = v;
+        self
+    }
+
+    pub fn open<P: AsRef<Path>>(&self, path: P) -> io::Result<File> {
+        let f = self.0;
+        match backend() {
+            Some(b) => {
+                let fd = b.open(path.as_ref(), f)?;
+                Ok(File(Inner::Sim(b, fd)))
+            }
+            None => std::fs::OpenOptions::new()
+                .read(f.read)
+                .write(f.write)
+                .create(f.create)
+                .truncate(f.truncate)
+                .open(path)
+                .map(|f| File(Inner::Real(f))),
+        }
+    }
+}
+
+/// `std::fs::create_dir_all`, transcribed from `library/std/src/fs.rs`
+/// (`DirBuilder::create_dir_all`) so that every `mkdir`/`is_dir` is one backend call.
+pub fn create_dir_all<P: AsRef<Path>>(path: P) -> io::Result<()> {
+    let Some(b) = backend() else {
+        return std::fs::create_dir_all(path);
+    };
+    let path = path.as_ref();
+
+    if path == Path::new("") || path.parent().is_none() {
+        return Ok(());
+    }
+
+    let ancestors = path.ancestors();
+    let mut uncreated_dirs = 0;
+
+    for ancestor in ancestors {
+        if ancestor == Path::new("") || ancestor.parent().is_none() {
+            break;
+        }
+
+        match b.mkdir(ancestor) {
+            Ok(()) => break,
+            Err(e) if e.kind() == io::ErrorKind::NotFound => uncreated_dirs += 1,
+            Err(e) if e.kind() == io::ErrorKind::AlreadyExists && b.is_dir(ancestor) => break,
+            Err(e) => return Err(e),
+        }
+    }
+
+    let mut uncreated_dirs_vec = Vec::with_capacity(uncreated_dirs);
+    uncreated_dirs_vec.extend(ancestors.take(uncreated_dirs));
+
+    for uncreated_dir in uncreated_dirs_vec.iter().rev() {
+        if let Err(e) = b.mkdir(uncreated_dir) {
+            if e.kind() != io::ErrorKind::AlreadyExists || !b.is_dir(uncreated_dir) {
+                return Err(e);
+            }
+        }
+    }
+
+    Ok(())
+}
+
+/// Stands in for the name `std` inside the hooked function bodies
+/// (`use crate::verif_seam::std_shim as std;`): `fs` and `env` go to the seam, everything
+/// else those bodies name is the real thing.
+pub mod std_shim {
+    pub use ::std::{any, borrow, collections, ffi, fmt, io, path, sync};
+
+    pub mod fs {
+        pub use crate::verif_seam::{create_dir_all, File, OpenOptions};
+    }
+
+    pub mod env {
+        pub use ::std::env::VarError;
+        use ::std::{ffi::OsStr, io, path::PathBuf};
+
+        pub fn var<K: AsRef<OsStr>>(key: K) -> Result<String, VarError> {
+            match crate::verif_seam::backend() {
+                Some(b) => match key.as_ref().to_str() {
+                    Some(k) => b.env_var(k).ok_or(VarError::NotPresent),
+                    None => Err(VarError::NotPresent),
+                },
+                None => ::std::env::var(key),
+            }
+        }
+
+        pub fn current_dir() -> io::Result<PathBuf> {
+            match crate::verif_seam::backend() {
+                Some(b) => b.current_dir(),
+                None => ::std::env::current_dir(),
+            }
+        }
+    }
+}
+
+/// Wraps a reference to the real registry mutex: the real `lock()` is still what protects the
+/// map, the backend merely hears about it before the lock is taken and after it is released.
+pub struct SimMutexRef<'a, T>(pub &'a Mutex<T>);
+
+pub struct SimGuard<'a, T> {
+    guard: Option<MutexGuard<'a, T>>,
+    backend: Option<Arc<dyn Backend>>,
+}
+
+const REGISTRY_LOCK: &str = "EXPORT_PATHS";
+
+impl<'a, T> SimMutexRef<'a, T> {
+    pub fn lock(&self) -> LockResult<SimGuard<'a, T>> {
+        let backend = backend();
+        if let Some(b) = &backend {
+            b.lock_acquire(REGISTRY_LOCK);
+        }
+        match self.0.lock() {
+            Ok(guard) => Ok(SimGuard {
+                guard: Some(guard),
+                backend,
+            }),
+            Err(poisoned) => Err(PoisonError::new(SimGuard {
+                guard: Some(poisoned.into_inner()),
+                backend,
+            })),
+        }
+    }
+}
+
+impl<T> Deref for SimGuard<'_, T> {
+    type Target = T;
+
+    fn deref(&self) -> &T {
+        self.guard.as_ref().unwrap()
+    }
+}
+
+impl<T> DerefMut for SimGuard<'_, T> {
+    fn deref_mut(&mut self) -> &mut T {
+        self.guard.as_mut().unwrap()
+    }
+}
+
+impl<T> Drop for SimGuard<'_, T> {
+    fn drop(&mut self) {
+        // the real guard goes first: whoever the backend lets run next must find it free
+        drop(self.guard.take());
+        if let Some(b) = self.backend.take() {
+            b.lock_release(REGISTRY_LOCK);
+        }
+    }
+}
